@@ -145,7 +145,11 @@ theorem armed_excluded_branch (ins : List In) (e : Time × Addr) (r : List (Time
   rearm_invalid (run_top ins).wf ht he
 
 /-- ... and then `armed` can fail: a timer with the deadline -5 µs, the clock at -10 µs: after the timerfd fired early
-the queue is not re-armed, the timer is pending and never runs (this needs a clock before 1970) -/
+the queue is not re-armed, the timer is pending and never runs (this needs a clock before 1970: with a reading after
+1970 a deadline ≤ 0 is already due at every `handleRead`.  What the unchanged code does with `runAt(Timestamp::invalid())`
+under a real clock, outside a callback and inside one — `addTimerInLoop` arms the 100 µs floor both times, `reset()`
+then leaves the descriptor alone, the timer runs in the next batch — is run on the implementation:
+corpus/C06/W4-invalid-deadline.case and the generator's zero / negative deadlines, oracle `disarmed`) -/
 theorem armed_needs_valid_deadlines :
     ¬ ∀ ins : List In, (run ins).timers ≠ [] → (run ins).readable = true ∨
       ∃ a, (run ins).alarm = some a ∧ a ≤ max (firstExp (run ins).timers) ((run ins).armedAt + 100) := by
@@ -196,5 +200,36 @@ theorem statement_order_tied :
     Gen.TimerSkel.insert = TimerSkel.Decl.insert ∧
     Gen.TimerSkel.restart = TimerSkel.Decl.restart :=
   TimerSkel.skeletons_agree
+
+/-- **addTime_exact_in_range**: the deadline arithmetic of `runAfter` / `runEvery` / `Timer::restart` has no spurious
+wrap-around anywhere in the supported range.  `addTime` is the definition the model uses, translated from `addTime()` of
+muduo/base/Timestamp.h with the C type of every intermediate value: a 32-bit intermediate (`int * int`, `static_cast<int>`)
+is wrapped at 2^31, 64-bit ones are exact; `addTimeW` is the same text with every 64-bit operation and the
+double → `int64_t` conversion wrapped at 2^63 as well (the machine's arithmetic).  For every timestamp `t` and every delay
+of `d` microseconds (negative ones included) such that `d` and `t + d` are representable as `int64_t` microseconds, both
+are exactly `t + d`.  Trusted, not proved: the `double seconds` handed to `addTime` is the rational `d / 10^6` and the
+double operations on it (`seconds * kMicroSecondsPerSecond`, truncation) give the exact rational results — the harness
+refuses delays for which the double product is not the integer (`inexact-interval`). -/
+theorem addTime_exact_in_range (t d : Int) (hd1 : -9223372036854775808 ≤ d) (hd2 : d < 9223372036854775808)
+    (h1 : -9223372036854775808 ≤ t + d) (h2 : t + d < 9223372036854775808) :
+    addTime t d = t + d ∧ addTimeW t d = t + d :=
+  ⟨addTime_eq t d, addTimeW_eq t d hd1 hd2 h1 h2⟩
+
+/-- ... so the deadline a timer is created with is the clock reading the wrapper makes plus the delay, and a repeating
+timer is restarted at the batch's reading plus its interval, for delays and intervals of any size (2147 s, an hour, ten
+years): with `never_early` (`first + (k-1)·delta ≤ exp ≤ now`) the k-th run of `runEvery(d)` is no earlier than the
+reading at registration plus `k·d` -/
+theorem delay_deadline (s : TQ) (d : Int) (pos : Bool) (now : Time) :
+    (deadlineOf s (.after d)).1.1 = (readNow s).1 + d ∧ (deadlineOf s (.every d pos)).1.1 = (readNow s).1 + d ∧
+    (deadlineOf s (.every d pos)).1.2.2 = d ∧ restart true now d = now + d :=
+  ⟨addTime_eq _ _, addTime_eq _ _, rfl, restart_repeating now d⟩
+
+/-- **arm_exact_in_range**: the `timespec` handed to `timerfd_settime` is computed without wrap-around for every deadline
+and clock reading whose difference is representable as `int64_t` microseconds (deadlines after 2038, 2106, 2262 …;
+`tv_sec` and `tv_nsec` are 64 bits wide in this build, checked by T1): the machine variant (64-bit operations wrapped)
+equals the definition the model uses, which carries exactly `max (when - now) 100` microseconds (`arm_timespec`). -/
+theorem arm_exact_in_range (w n : Int) (h1 : -9223372036854775808 ≤ w - n) (h2 : w - n < 9223372036854775808) :
+    howMuchUsW w n = howMuchUs w n ∧ howMuchTimeFromNowW w n = howMuchTimeFromNow w n :=
+  howMuchW_eq w n h1 h2
 
 end MuduoVerif.C06
